@@ -356,13 +356,10 @@ def addValve (v : Variant) (s : Reg) (name a b : Name) (kind : LinkKind) (curve 
       else match linkInit v s name a b .valve with
         | .error s' => (s', .error)
         | .ok s1 =>
-          if kind = .gpv then
-            match curve with
-            | none => (s1, .error)   -- not generated: a GPV always comes with a curve name
-            | some c =>
-              let s2 := setCurveType v (addUsage s1 .curve c (name, .valve)) c .headloss
-              (bumpUid (setLink s2 name ⟨.gpv, a, b, none, some c, s.nextUid⟩), .ok)
-          else (bumpUid (setLink s1 name ⟨kind, a, b, none, none, s.nextUid⟩), .ok)
+          -- `if valve_type == 'GPV': valve.headloss_curve_name = initial_setting` (a falsy setting registers nothing)
+          let c' := if kind = .gpv then curve else none
+          let s2 := setCurveType? v (addUsage? s1 .curve c' (name, .valve)) c' .headloss
+          (bumpUid (setLink s2 name ⟨kind, a, b, none, c', s.nextUid⟩), .ok)
     | _, _ => (s, .error)
 
 def addPattern (s : Reg) (name : Name) : Reg × Out :=
@@ -375,13 +372,16 @@ def addCurve (v : Variant) (s : Reg) (name : Name) (t : Option CurveType) : Reg 
   | none => (s1, .ok)
   | some t => (setCurveType v s1 name t, .ok)
 
+/-- `pattern = self.get_pattern(pattern)`: `None` when there is no such pattern -/
+def srcPat (s : Reg) (pat : Option Name) : Option Name :=
+  match pat with
+  | some p => if s.patterns.contains p then some p else none
+  | none => none
+
 def addSource (v : Variant) (s : Reg) (name node : Name) (pat : Option Name) : Reg × Out :=
   if v.rejectDuplicates && AL.has s.sources name then (s, .error)
   else
-    -- `pattern = self.get_pattern(pattern)`: `None` when there is no such pattern
-    let pat' := match pat with
-      | some p => if s.patterns.contains p then some p else none
-      | none => none
+    let pat' := srcPat s pat
     -- Source.__init__
     let s1 := addUsage? s (if v.sourceUsageByName then .pattern else .patternObj) pat' (name, .source)
     let s2 := addUsage s1 .node node (name, .source)
